@@ -635,12 +635,7 @@ class HedTag:
         if not isinstance(other, HedTag):
             return False
 
-        if self.short_tag.casefold() == other.short_tag.casefold():
-            return True
-
-        if self.org_tag.casefold() == other.org_tag.casefold():
-            return True
-        return False
+        return self.short_tag.casefold() == other.short_tag.casefold()
 
     def __deepcopy__(self, memo):
         # Check if the object has already been copied.
